@@ -44,15 +44,22 @@ def fields():
         (f'as-path [ 1 {U32} 23456 ]', True, {'attrs': {'aspath': [[2, [1, U32, 23456]]]}}), (f'as-path [ {U32 + 1} ]', False, None), ('as-path [ -1 ]', False, None),
         ('as-path [ 65001 banana ]', False, None), ('as-path [ ' + ' '.join(str(64512 + i % 100) for i in range(256)) + ' ]', True, {'attrs': {'aspath': [[2, [64512 + i % 100 for i in range(256)]]]}}),
         ('as-path [ 0 ]', None, {'attrs': {'aspath': [[2, [0]]]}}),
+        ('as-path 65535', True, {'attrs': {'aspath': [[2, [65535]]]}}), ('as-path 65536', True, {'attrs': {'aspath': [[2, [65536]]]}}), (f'as-path {U32}', True, {'attrs': {'aspath': [[2, [U32]]]}}),
+        (f'as-path {U32 + 1}', False, None), ('as-path banana', False, None),
+        ('as-path [ 4200000000 65001 ] ( 65002 65003 )', True, {'attrs': {'aspath': [[2, [4200000000, 65001]], [1, [65002, 65003]]]}}),
+        ('as-path [ 65001 ] ( 4200000000 65003 )', True, {'attrs': {'aspath': [[2, [65001]], [1, [4200000000, 65003]]]}}),
+        ('as-path [ 65001 65002 ] ( 65003 ) [ 4200000000 ]', True, {'attrs': {'aspath': [[2, [65001, 65002]], [1, [65003]], [2, [4200000000]]]}}),
     ]  # fmt: skip
     f['community'] = [
         ('community [ 65535:65535 ]', True, {'attrs': {'comm': [[65535, 65535]]}}), ('community [ 0:0 ]', True, {'attrs': {'comm': [[0, 0]]}}), ('community [ 65536:1 ]', False, None),
         ('community [ 1:65536 ]', False, None), ('community [ -1:1 ]', False, None), ('community [ 1:2:3 ]', False, None), ('community [ banana ]', False, None),
+        ('community 65535:65535', True, {'attrs': {'comm': [[65535, 65535]]}}), ('community 65536:0', False, None), ('community 4294967295', True, {'attrs': {'comm': [[65535, 65535]]}}),
+        ('community 4294967296', False, None), ('community 0xffffffff', True, {'attrs': {'comm': [[65535, 65535]]}}), ('community 0x100000000', False, None),
         ('community [ ' + ' '.join(f'65000:{i}' for i in range(256)) + ' ]', True, {'attrs': {'comm': [[65000, i] for i in range(256)]}}),
     ]  # fmt: skip
     f['large'] = [
         (f'large-community [ {U32}:{U32}:{U32} ]', True, {'attrs': {'large': [[U32, U32, U32]]}}), (f'large-community [ {U32 + 1}:1:1 ]', False, None),
-        (f'large-community [ 1:{U32 + 1}:1 ]', False, None), ('large-community [ 1:2 ]', False, None), ('large-community [ 1:2:-3 ]', False, None),
+        (f'large-community [ 1:{U32 + 1}:1 ]', False, None), (f'large-community {U32}:0:{U32}', True, {'attrs': {'large': [[U32, 0, U32]]}}), (f'large-community 1:1:{U32 + 1}', False, None), ('large-community [ 1:2 ]', False, None), ('large-community [ 1:2:-3 ]', False, None),
     ]  # fmt: skip
     f['ext'] = [
         (f'extended-community [ target:65535:{U32} ]', True, {'attrs': {'ext': [f'target:65535:{U32}']}}), ('extended-community [ target:65536:65535 ]', True, {'attrs': {'ext': ['target:65536:65535']}}),
@@ -60,16 +67,16 @@ def fields():
         ('extended-community [ target:1.2.3.4:65536 ]', False, None), (f'extended-community [ target:65535:{U32 + 1} ]', False, None), ('extended-community [ target:1.2.3.256:1 ]', False, None),
         ('extended-community [ 0x0002fde8000000 ]', False, None), ('extended-community [ 0x0002fde800000001ff ]', False, None), ('extended-community [ frobnicate:1:2 ]', False, None), ('extended-community [ origin:65535:4294967296 ]', False, None), ('extended-community [ origin:1.2.3.4:65536 ]', False, None), ('extended-community [ target:-1:1 ]', False, None), ('extended-community [ target:1:2:3 ]', False, None), ('extended-community [ 0x0002fde80000zz01 ]', False, None), ('extended-community [ target:: ]', False, None),
     ]  # fmt: skip
-    f['label'] = [('label [ 0 ]', True, {'fam': 'v4l', 'labels': [0]}), ('label [ 1048575 ]', True, {'fam': 'v4l', 'labels': [1048575]}), ('label [ 1048576 ]', False, None), ('label [ -1 ]', False, None), ('label [ banana ]', False, None)]
+    f['label'] = [('label 1048575', True, {'fam': 'v4l', 'labels': [1048575]}), ('label 1048576', False, None), ('label [ 100 1048575 ]', True, {'fam': 'v4l', 'labels': [100, 1048575]}), ('label [ 100 1048576 ]', False, None), ('label [ 0 ]', True, {'fam': 'v4l', 'labels': [0]}), ('label [ 1048575 ]', True, {'fam': 'v4l', 'labels': [1048575]}), ('label [ 1048576 ]', False, None), ('label [ -1 ]', False, None), ('label [ banana ]', False, None)]
     f['rd'] = [
         (f'rd 65535:{U32} label [ 100 ]', True, {'fam': 'v4vpn', 'rd': f'65535:{U32}', 'labels': [100]}), ('rd 65536:65535 label [ 100 ]', True, {'fam': 'v4vpn', 'rd': '65536:65535', 'labels': [100]}),
         ('rd 65536:65536 label [ 100 ]', False, None), ('rd 1.2.3.4:65535 label [ 100 ]', True, {'fam': 'v4vpn', 'rd': '1.2.3.4:65535', 'labels': [100]}), ('rd 1.2.3.4:65536 label [ 100 ]', False, None),
         (f'rd {U32 + 1}:1 label [ 100 ]', False, None), (f'rd 65535:{U32 + 1} label [ 100 ]', False, None), ('rd banana label [ 100 ]', False, None), ('rd 1.2.3.256:1 label [ 100 ]', False, None), ('rd 65000:banana label [ 100 ]', False, None), ('rd 1.2.3:1 label [ 100 ]', False, None), ('rd -1:1 label [ 100 ]', False, None),
     ]  # fmt: skip
     f['pathid'] = [('path-information 0', True, {'pid': 0}), (f'path-information {U32}', True, {'pid': U32}), (f'path-information {U32 + 1}', False, None), ('path-information -1', False, None), ('path-information 1.2.3.4', True, {'pid': 16909060}), ('path-information 1.2.3.256', False, None), ('path-information 1.2.3', False, None), ('path-information banana', False, None)]
-    f['aggregator'] = [(f'aggregator ( {U32}:10.0.0.1 )', True, {'attrs': {'aggregator': [U32, '10.0.0.1']}}), (f'aggregator ( {U32 + 1}:10.0.0.1 )', False, None), ('aggregator ( 65000:10.0.0.256 )', False, None), ('aggregator ( 65000 )', False, None)]
+    f['aggregator'] = [(f'aggregator {U32}:10.0.0.1', True, {'attrs': {'aggregator': [U32, '10.0.0.1']}}), (f'aggregator {U32 + 1}:10.0.0.1', False, None), (f'aggregator ( {U32}:10.0.0.1 )', True, {'attrs': {'aggregator': [U32, '10.0.0.1']}}), (f'aggregator ( {U32 + 1}:10.0.0.1 )', False, None), ('aggregator ( 65000:10.0.0.256 )', False, None), ('aggregator ( 65000 )', False, None)]
     f['originator'] = [('originator-id 255.255.255.255', True, {'attrs': {'originator': '255.255.255.255'}}), ('originator-id 1.2.3.256', False, None), ('originator-id banana', False, None)]
-    f['cluster'] = [('cluster-list [ 1.1.1.1 255.255.255.255 ]', True, {'attrs': {'cluster': ['1.1.1.1', '255.255.255.255']}}), ('cluster-list [ 1.1.1.256 ]', False, None)]
+    f['cluster'] = [('cluster-list 255.255.255.255', True, {'attrs': {'cluster': ['255.255.255.255']}}), ('cluster-list 1.1.1.256', False, None), ('cluster-list [ 1.1.1.1 255.255.255.255 ]', True, {'attrs': {'cluster': ['1.1.1.1', '255.255.255.255']}}), ('cluster-list [ 1.1.1.256 ]', False, None)]
     f['aigp'] = [('aigp 0', True, {'attrs': {'aigp': 0}}), (f'aigp {(1 << 64) - 1}', True, {'attrs': {'aigp': (1 << 64) - 1}}), (f'aigp {1 << 64}', False, None), ('aigp -1', False, None)]
     f['origin'] = [('origin incomplete', True, {'attrs': {'origin': 'incomplete'}}), ('origin sideways', False, None)]
     f['generic'] = [
@@ -99,6 +106,9 @@ def kinds_for(rng) -> list[dict]:
     if ks[1]['peer_as'] > 65535:
         ks[1]['peer_as'] = 65003 if ks[1]['local_as'] != 65003 else 65004
     ks[0]['addpath'] = ks[1]['addpath'] = True
+    for k in ks:
+        k.pop('ap_local', None)
+        k.pop('ap_peer', None)
     return ks
 
 
